@@ -55,7 +55,7 @@ def mixed_streams(ctx, rng, n):
         if proto == 'pickle':
           b, what = wiresys.bad_pickle(rng)
         else:
-          b, what = wiresys.bad_line(rng)
+          b, what = wiresys.bad_line(rng, proto)
         frames.append(dict(bytes=b, kind='bad', dps=[], what=what))
         nbad += 1
       else:
